@@ -1,21 +1,27 @@
 #!/venv/bin/python
-"""Re-run every source translator against /repo (or $EQSIG_REPO); called by harness/setup.sh and available by hand.
-Each check also re-runs the translator it depends on at the start of its own run."""
-import os, sys, importlib
-HERE = os.path.dirname(os.path.abspath(__file__))
-sys.path.insert(0, HERE)
-REPO = os.environ.get('EQSIG_REPO', '/repo')
-COQ = os.path.join(os.path.dirname(HERE), 'coq')
-# (module, callable name, destination file)
+"""Runs every source-to-Coq translator of the framework (called by harness/setup.sh and usable by hand).
+Add a translator by appending (name, module, function) to TRANSLATORS; each function regenerates its coq/gen file
+from the sources under $EQSIG_REPO (default /repo), rewrites it only when the text changes, and raises on failure."""
+import importlib, os, sys
+sys.path.insert(0, os.path.dirname(os.path.abspath(__file__)))
+
 TRANSLATORS = [
-    ('py2coq_scalar', 'generate', os.path.join(COQ, 'gen', 'Gen_sdof_coeffs.v')),
+    ('sdof_coeffs', 'py2coq_scalar', 'regenerate'),
+    ('design_spectra', 'py2coq_design', 'regenerate'),
 ]
-rc = 0
-for mod, fn, dest in TRANSLATORS:
-    try:
-        getattr(importlib.import_module(mod), fn)(REPO, dest)
-        print('%s: %s up to date' % (mod, os.path.relpath(dest, COQ)))
-    except Exception as e:  # noqa
-        print('%s FAILED: %s: %s' % (mod, type(e).__name__, e))
-        rc = 1
-sys.exit(rc)
+
+
+def main():
+    rc = 0
+    for name, mod, fn in TRANSLATORS:
+        try:
+            changed = getattr(importlib.import_module(mod), fn)()
+            print('regen %s: %s' % (name, 'rewritten' if changed else 'unchanged'))
+        except Exception as e:  # fail closed: report, keep going with the other translators
+            print('regen %s: FAILED: %s' % (name, e))
+            rc = 1
+    return rc
+
+
+if __name__ == '__main__':
+    sys.exit(main())
